@@ -17,6 +17,7 @@ RULE = (
     "decrypt_metadata and compared field for field; limit+1 must be refused. D: the blob family (wrong lengths, "
     "all-zero, all-ff, LCG blobs, encryptions under the other key, PKCS#1 encryptions of non-metadata plaintexts) must "
     "raise ValueError and nothing else. Key derivation for a structured family of seeds against hashlib. "
+    ' Added: preset / stale size fields and re-used metadata objects, blobs longer than one RSA block, every bad blob twice through a traffic decoder (verification on and off), decoder key material combinations, per-call keys. '
     "non-trivial = any field or the info string differs from the all-default metadata, or a blob is rejected"
 )
 ASSUMPTIONS = [
